@@ -325,12 +325,12 @@ def stream_sched(ctx):
             c = json.load(open(os.path.join(cdir, fn)))
             if c.get("stream", "sched") == "sched":
                 judge(Run(c["program"], sched.replay_chooser(c["schedule"])).execute(), c["program"], "corpus")
-    for pi in range(ctx.n(25, 120) * boost):
+    for pi in range(ctx.n(25, 60) * boost):
         prog = gen_program(rng.fork("p%d" % pi), ctx.quick)
         if pi < 2:
             ctx.sample({"stream": "sched", "program": prog})
-        dfs(prog, ctx.n(2, 3), ctx.n(30, 250), lambda r, prog=prog: judge(r, prog, "dfs"))
-    for i in range(ctx.n(300, 8000) * boost):
+        dfs(prog, ctx.n(2, 3), ctx.n(30, 200), lambda r, prog=prog: judge(r, prog, "dfs"))
+    for i in range(ctx.n(300, 4000) * boost):
         r2 = rng.fork("r%d" % i)
         prog = gen_program(r2, ctx.quick)
         judge(Run(prog, sched.random_chooser(r2, r2.choice([15, 35, 60]))).execute(), prog, "random")
